@@ -10,6 +10,7 @@ import (
 	"testing"
 
 	"google.golang.org/protobuf/proto"
+	"google.golang.org/protobuf/types/known/fieldmaskpb"
 	"google.golang.org/protobuf/types/known/timestamppb"
 	"pgregory.net/rapid"
 
@@ -31,7 +32,9 @@ type pager struct {
 	name string
 	// setup creates a server holding len(ids) items (keyed by ids where the API lets the caller choose keys) and returns
 	// the expected full listing (keys in listing order) and the page function.
-	setup func(ids []string) (want []string, list func(size int32, token string) (keys []string, next string, total int32, err error))
+	setup func(ids []string) (want []string, list listFn)
+	// key extracts the listing key from an (unmasked) item.
+	key func(m proto.Message) string
 	// indexToken: page tokens are plain decimal indexes rather than encoded PageToken messages.
 	indexToken bool
 	// minItems: the model always holds at least this many items.
@@ -40,6 +43,17 @@ type pager struct {
 
 var ctx = context.Background()
 
+// listFn performs one List call: page size, page token and an optional read mask.
+type listFn func(size int32, token string, mask *fieldmaskpb.FieldMask) (items []proto.Message, next string, total int32, err error)
+
+func toMsgs[T proto.Message](in []T) []proto.Message {
+	out := make([]proto.Message, len(in))
+	for i, m := range in {
+		out[i] = m
+	}
+	return out
+}
+
 func sorted(ids []string) []string {
 	out := append([]string(nil), ids...)
 	sort.Strings(out)
@@ -47,7 +61,7 @@ func sorted(ids []string) []string {
 }
 
 var pagers = []pager{
-	{name: "ListModes", setup: func(ids []string) ([]string, func(int32, string) ([]string, string, int32, error)) {
+	{name: "ListModes", setup: func(ids []string) ([]string, listFn) {
 		m := electricpb.NewModel()
 		for _, id := range ids {
 			if err := m.AddMode(&traits.ElectricMode{Id: id, Title: "t" + id}); err != nil {
@@ -55,19 +69,15 @@ var pagers = []pager{
 			}
 		}
 		s := electricpb.NewModelServer(m)
-		return sorted(ids), func(size int32, token string) ([]string, string, int32, error) {
-			r, err := s.ListModes(ctx, &traits.ListModesRequest{Name: "n", PageSize: size, PageToken: token})
+		return sorted(ids), func(size int32, token string, mask *fieldmaskpb.FieldMask) ([]proto.Message, string, int32, error) {
+			r, err := s.ListModes(ctx, &traits.ListModesRequest{Name: "n", PageSize: size, PageToken: token, ReadMask: mask})
 			if err != nil {
 				return nil, "", 0, err
 			}
-			var keys []string
-			for _, it := range r.Modes {
-				keys = append(keys, it.Id)
-			}
-			return keys, r.NextPageToken, r.TotalSize, nil
+			return toMsgs(r.Modes), r.NextPageToken, r.TotalSize, nil
 		}
-	}},
-	{name: "ListHails", setup: func(ids []string) ([]string, func(int32, string) ([]string, string, int32, error)) {
+	}, key: func(m proto.Message) string { return m.(*traits.ElectricMode).Id }},
+	{name: "ListHails", setup: func(ids []string) ([]string, listFn) {
 		m := hailpb.NewModel()
 		var got []string
 		for range ids {
@@ -78,37 +88,29 @@ var pagers = []pager{
 			got = append(got, h.Id)
 		}
 		s := hailpb.NewModelServer(m)
-		return sorted(got), func(size int32, token string) ([]string, string, int32, error) {
-			r, err := s.ListHails(ctx, &traits.ListHailsRequest{Name: "n", PageSize: size, PageToken: token})
+		return sorted(got), func(size int32, token string, mask *fieldmaskpb.FieldMask) ([]proto.Message, string, int32, error) {
+			r, err := s.ListHails(ctx, &traits.ListHailsRequest{Name: "n", PageSize: size, PageToken: token, ReadMask: mask})
 			if err != nil {
 				return nil, "", 0, err
 			}
-			var keys []string
-			for _, it := range r.Hails {
-				keys = append(keys, it.Id)
-			}
-			return keys, r.NextPageToken, r.TotalSize, nil
+			return toMsgs(r.Hails), r.NextPageToken, r.TotalSize, nil
 		}
-	}},
-	{name: "ListChildren", setup: func(ids []string) ([]string, func(int32, string) ([]string, string, int32, error)) {
+	}, key: func(m proto.Message) string { return m.(*traits.Hail).Id }},
+	{name: "ListChildren", setup: func(ids []string) ([]string, listFn) {
 		m := parentpb.NewModel()
 		for _, id := range ids {
 			m.AddChild(&traits.Child{Name: id})
 		}
 		s := parentpb.NewModelServer(m)
-		return sorted(ids), func(size int32, token string) ([]string, string, int32, error) {
-			r, err := s.ListChildren(ctx, &traits.ListChildrenRequest{Name: "n", PageSize: size, PageToken: token})
+		return sorted(ids), func(size int32, token string, mask *fieldmaskpb.FieldMask) ([]proto.Message, string, int32, error) {
+			r, err := s.ListChildren(ctx, &traits.ListChildrenRequest{Name: "n", PageSize: size, PageToken: token, ReadMask: mask})
 			if err != nil {
 				return nil, "", 0, err
 			}
-			var keys []string
-			for _, it := range r.Children {
-				keys = append(keys, it.Name)
-			}
-			return keys, r.NextPageToken, r.TotalSize, nil
+			return toMsgs(r.Children), r.NextPageToken, r.TotalSize, nil
 		}
-	}},
-	{name: "ListChildren(case-insensitive ids)", setup: func(ids []string) ([]string, func(int32, string) ([]string, string, int32, error)) {
+	}, key: func(m proto.Message) string { return m.(*traits.Child).Name }},
+	{name: "ListChildren(case-insensitive ids)", setup: func(ids []string) ([]string, listFn) {
 		// a model configured with an id interceptor: children are keyed by lower-cased name but listed by name
 		m := parentpb.NewModel(resource.WithIDInterceptor(strings.ToLower))
 		seen := map[string]bool{}
@@ -122,19 +124,15 @@ var pagers = []pager{
 			m.AddChild(&traits.Child{Name: id})
 		}
 		s := parentpb.NewModelServer(m)
-		return sorted(names), func(size int32, token string) ([]string, string, int32, error) {
-			r, err := s.ListChildren(ctx, &traits.ListChildrenRequest{Name: "n", PageSize: size, PageToken: token})
+		return sorted(names), func(size int32, token string, mask *fieldmaskpb.FieldMask) ([]proto.Message, string, int32, error) {
+			r, err := s.ListChildren(ctx, &traits.ListChildrenRequest{Name: "n", PageSize: size, PageToken: token, ReadMask: mask})
 			if err != nil {
 				return nil, "", 0, err
 			}
-			var keys []string
-			for _, it := range r.Children {
-				keys = append(keys, it.Name)
-			}
-			return keys, r.NextPageToken, r.TotalSize, nil
+			return toMsgs(r.Children), r.NextPageToken, r.TotalSize, nil
 		}
-	}},
-	{name: "ListPublications", setup: func(ids []string) ([]string, func(int32, string) ([]string, string, int32, error)) {
+	}, key: func(m proto.Message) string { return m.(*traits.Child).Name }},
+	{name: "ListPublications", setup: func(ids []string) ([]string, listFn) {
 		m := publicationpb.NewModel()
 		for _, id := range ids {
 			if _, err := m.CreatePublication(&traits.Publication{Id: id, Body: []byte(id)}); err != nil {
@@ -142,19 +140,15 @@ var pagers = []pager{
 			}
 		}
 		s := publicationpb.NewModelServer(m)
-		return sorted(ids), func(size int32, token string) ([]string, string, int32, error) {
-			r, err := s.ListPublications(ctx, &traits.ListPublicationsRequest{Name: "n", PageSize: size, PageToken: token})
+		return sorted(ids), func(size int32, token string, mask *fieldmaskpb.FieldMask) ([]proto.Message, string, int32, error) {
+			r, err := s.ListPublications(ctx, &traits.ListPublicationsRequest{Name: "n", PageSize: size, PageToken: token, ReadMask: mask})
 			if err != nil {
 				return nil, "", 0, err
 			}
-			var keys []string
-			for _, it := range r.Publications {
-				keys = append(keys, it.Id)
-			}
-			return keys, r.NextPageToken, r.TotalSize, nil
+			return toMsgs(r.Publications), r.NextPageToken, r.TotalSize, nil
 		}
-	}},
-	{name: "ListConsumables", setup: func(ids []string) ([]string, func(int32, string) ([]string, string, int32, error)) {
+	}, key: func(m proto.Message) string { return m.(*traits.Publication).Id }},
+	{name: "ListConsumables", setup: func(ids []string) ([]string, listFn) {
 		m := vendingpb.NewModel()
 		for _, id := range ids {
 			if _, err := m.CreateConsumable(&traits.Consumable{Name: id}); err != nil {
@@ -162,19 +156,15 @@ var pagers = []pager{
 			}
 		}
 		s := vendingpb.NewModelServer(m)
-		return sorted(ids), func(size int32, token string) ([]string, string, int32, error) {
-			r, err := s.ListConsumables(ctx, &traits.ListConsumablesRequest{Name: "n", PageSize: size, PageToken: token})
+		return sorted(ids), func(size int32, token string, mask *fieldmaskpb.FieldMask) ([]proto.Message, string, int32, error) {
+			r, err := s.ListConsumables(ctx, &traits.ListConsumablesRequest{Name: "n", PageSize: size, PageToken: token, ReadMask: mask})
 			if err != nil {
 				return nil, "", 0, err
 			}
-			var keys []string
-			for _, it := range r.Consumables {
-				keys = append(keys, it.Name)
-			}
-			return keys, r.NextPageToken, r.TotalSize, nil
+			return toMsgs(r.Consumables), r.NextPageToken, r.TotalSize, nil
 		}
-	}},
-	{name: "ListInventory", setup: func(ids []string) ([]string, func(int32, string) ([]string, string, int32, error)) {
+	}, key: func(m proto.Message) string { return m.(*traits.Consumable).Name }},
+	{name: "ListInventory", setup: func(ids []string) ([]string, listFn) {
 		m := vendingpb.NewModel()
 		for _, id := range ids {
 			if _, err := m.CreateStock(&traits.Consumable_Stock{Consumable: id}); err != nil {
@@ -182,19 +172,15 @@ var pagers = []pager{
 			}
 		}
 		s := vendingpb.NewModelServer(m)
-		return sorted(ids), func(size int32, token string) ([]string, string, int32, error) {
-			r, err := s.ListInventory(ctx, &traits.ListInventoryRequest{Name: "n", PageSize: size, PageToken: token})
+		return sorted(ids), func(size int32, token string, mask *fieldmaskpb.FieldMask) ([]proto.Message, string, int32, error) {
+			r, err := s.ListInventory(ctx, &traits.ListInventoryRequest{Name: "n", PageSize: size, PageToken: token, ReadMask: mask})
 			if err != nil {
 				return nil, "", 0, err
 			}
-			var keys []string
-			for _, it := range r.Inventory {
-				keys = append(keys, it.Consumable)
-			}
-			return keys, r.NextPageToken, r.TotalSize, nil
+			return toMsgs(r.Inventory), r.NextPageToken, r.TotalSize, nil
 		}
-	}},
-	{name: "ListWasteRecords", indexToken: true, minItems: 100, setup: func(ids []string) ([]string, func(int32, string) ([]string, string, int32, error)) {
+	}, key: func(m proto.Message) string { return m.(*traits.Consumable_Stock).Consumable }},
+	{name: "ListWasteRecords", indexToken: true, minItems: 100, setup: func(ids []string) ([]string, listFn) {
 		m := wastepb.NewModel() // starts with 100 generated records
 		for i := m.GetWasteRecordCount(); i < len(ids); i++ {
 			if _, err := m.GenerateWasteRecord(timestamppb.Now()); err != nil {
@@ -207,19 +193,19 @@ var pagers = []pager{
 			want = append(want, strconv.Itoa(i))
 		}
 		s := wastepb.NewModelServer(m)
-		return want, func(size int32, token string) ([]string, string, int32, error) {
-			r, err := s.ListWasteRecords(ctx, &traits.ListWasteRecordsRequest{Name: "n", PageSize: size, PageToken: token})
+		return want, func(size int32, token string, mask *fieldmaskpb.FieldMask) ([]proto.Message, string, int32, error) {
+			r, err := s.ListWasteRecords(ctx, &traits.ListWasteRecordsRequest{Name: "n", PageSize: size, PageToken: token, ReadMask: mask})
 			if err != nil {
 				return nil, "", 0, err
 			}
-			var keys []string
-			for _, it := range r.WasteRecords {
-				keys = append(keys, it.Id)
-			}
-			return keys, r.NextPageToken, r.TotalSize, nil
+			return toMsgs(r.WasteRecords), r.NextPageToken, r.TotalSize, nil
 		}
-	}},
+	}, key: func(m proto.Message) string { return m.(*traits.WasteRecord).Id }},
 }
+
+// keyField is the proto field each listing is keyed (and its page token built) by.
+var keyField = map[string]string{"ListModes": "id", "ListHails": "id", "ListChildren": "name", "ListChildren(case-insensitive ids)": "name", "ListPublications": "id",
+	"ListConsumables": "name", "ListInventory": "consumable", "ListWasteRecords": "id"}
 
 func effectiveSize(size int32) int {
 	switch {
@@ -232,31 +218,39 @@ func effectiveSize(size int32) int {
 }
 
 type pageResult struct {
-	keys  []string
+	items []proto.Message
 	next  string
 	total int32
 	err   error
 	panic any
 }
 
-func callPage(list func(int32, string) ([]string, string, int32, error), size int32, token string) (r pageResult) {
+func callPage(list listFn, size int32, token string, mask *fieldmaskpb.FieldMask) (r pageResult) {
 	defer func() {
 		if p := recover(); p != nil {
 			r.panic = p
 		}
 	}()
-	r.keys, r.next, r.total, r.err = list(size, token)
+	r.items, r.next, r.total, r.err = list(size, token, mask)
 	return
 }
 
+func keysOf(p pager, items []proto.Message) []string {
+	keys := make([]string, len(items))
+	for i, m := range items {
+		keys[i] = p.key(m)
+	}
+	return keys
+}
+
 // follow walks the token chain starting at token. It returns the concatenated keys or an error describing the violation.
-func follow(list func(int32, string) ([]string, string, int32, error), size int32, token string, n int, strictTotal bool) ([]string, int, error) {
+func follow(list listFn, size int32, token string, mask *fieldmaskpb.FieldMask, n int, strictTotal bool) ([]proto.Message, int, error) {
 	eff := effectiveSize(size)
 	maxPages := n/eff + 4
-	var all []string
+	var all []proto.Message
 	pages := 0
 	for {
-		r := callPage(list, size, token)
+		r := callPage(list, size, token, mask)
 		if r.panic != nil {
 			return all, pages, fmt.Errorf("page %d (token %q) panicked: %v", pages, token, r.panic)
 		}
@@ -264,13 +258,13 @@ func follow(list func(int32, string) ([]string, string, int32, error), size int3
 			return all, pages, fmt.Errorf("page %d (token %q) failed: %v", pages, token, r.err)
 		}
 		pages++
-		if len(r.keys) > eff {
-			return all, pages, fmt.Errorf("page %d has %d items, more than the effective page size %d (requested %d)", pages-1, len(r.keys), eff, size)
+		if len(r.items) > eff {
+			return all, pages, fmt.Errorf("page %d has %d items, more than the effective page size %d (requested %d)", pages-1, len(r.items), eff, size)
 		}
 		if strictTotal && int(r.total) != n {
 			return all, pages, fmt.Errorf("page %d reports total_size %d, want %d", pages-1, r.total, n)
 		}
-		all = append(all, r.keys...)
+		all = append(all, r.items...)
 		if r.next == "" {
 			return all, pages, nil
 		}
@@ -281,7 +275,9 @@ func follow(list func(int32, string) ([]string, string, int32, error), size int3
 	}
 }
 
-var idAlphabet = []string{"a", "aa", "a0", "A", "ab", "b", "é", "日", "a-", "a_", "Z", "0", "a.b", "aaa", "B", "ba", " a", "a "}
+// ids include bytes that make a base64 page token contain each of its special characters ('+', '/', '-', '_', '=')
+var idAlphabet = []string{"a", "aa", "a0", "A", "ab", "b", "é", "日", "a-", "a_", "Z", "0", "a.b", "aaa", "B", "ba", " a", "a ",
+	"?", ">", "~", "abc?", "abc>", "abc~", "ÿ", "¿", "¾", "aoé", "ao¿", "a/¿", "a?é", "a_ÿ", "þ", "ab>cd?", "+", "/", "a+b/c="}
 
 func drawIDs(t *rapid.T, n int) []string {
 	if n > 80 {
@@ -298,7 +294,7 @@ func drawIDs(t *rapid.T, n int) []string {
 		if rapid.IntRange(0, 2).Draw(t, "idkind") == 0 {
 			id = rapid.SampledFrom(idAlphabet).Draw(t, "id")
 		} else {
-			id = rapid.StringMatching(`[aAb0é]{1,4}`).Draw(t, "id")
+			id = rapid.StringMatching(`[aAb0é?>~o/_ÿ¿]{1,6}`).Draw(t, "id")
 		}
 		for seen[id] {
 			id += rapid.SampledFrom([]string{"a", "0", "A"}).Draw(t, "idext")
@@ -344,11 +340,12 @@ func TestPaging(t *testing.T) {
 		ids := drawIDs(t, n)
 		want, list := p.setup(ids)
 		size := drawPageSize(t, len(want))
-		got, pages, err := follow(list, size, "", len(want), true)
+		gotItems, pages, err := follow(list, size, "", nil, len(want), true)
 		desc := fmt.Sprintf("%s n=%d page_size=%d", p.name, len(want), size)
 		if err != nil {
 			t.Fatalf("%s: %v\n ids: %q", desc, err, want)
 		}
+		got := keysOf(p, gotItems)
 		if len(got) != len(want) {
 			t.Fatalf("%s: %d items enumerated in %d pages, want %d\n got  %q\n want %q", desc, len(got), pages, len(want), got, want)
 		}
@@ -357,9 +354,44 @@ func TestPaging(t *testing.T) {
 				t.Fatalf("%s: item %d is %q, want %q (missing, duplicated or out of order)\n got  %q\n want %q", desc, i, got[i], want[i], got, want)
 			}
 		}
+		// the same walk with a read mask (which may well leave out the field the listing is keyed by): same number of
+		// items, each the projection of the item the unmasked walk returned at that position
+		masked := false
+		if len(want) > 0 && len(want) <= 120 && rapid.IntRange(0, 2).Draw(t, "withReadMask") > 0 {
+			md := gotItems[0].ProtoReflect().Descriptor()
+			mask, _ := lib.DrawMask(t, "readMask", md, gotItems[0])
+			if mask != nil && lib.ValidMask(md, mask) {
+				masked = true
+				mItems, _, err := follow(list, size, "", mask, len(want), true)
+				mdesc := fmt.Sprintf("%s read_mask=%s", desc, lib.MaskString(mask))
+				if err != nil {
+					t.Fatalf("%s: %v\n ids: %q", mdesc, err, want)
+				}
+				if len(mItems) != len(gotItems) {
+					t.Fatalf("%s: %d items enumerated, the unmasked walk gave %d\n ids: %q", mdesc, len(mItems), len(gotItems), want)
+				}
+				for i := range mItems {
+					// position i must be the same item: compared on the fields the mask keeps (whether fields outside the
+					// mask are really left out is C06's / C14's business, not this property's)
+					wantItem := lib.DropEmptyOnPaths(lib.RefProject(gotItems[i], mask), mask)
+					if !proto.Equal(lib.DropEmptyOnPaths(lib.RefProject(mItems[i], mask), mask), wantItem) {
+						t.Fatalf("%s: item %d is %v, which is not item %d of the unmasked walk (%v) under the mask", mdesc, i, mItems[i], i, gotItems[i])
+					}
+					if !proto.Equal(lib.DropEmptyOnPaths(proto.Clone(mItems[i]), mask), wantItem) {
+						lib.Ev.Class("paging:read mask not applied by " + p.name + " (not judged here)")
+					}
+				}
+				lib.Ev.Class("paging:walk repeated with a read mask")
+				if !lib.Covers(mask.Paths, keyField[p.name]) {
+					lib.Ev.Class("paging:read mask leaves out the key field")
+				}
+			}
+		}
 		lib.Ev.Class("paging:" + p.name)
 		nt := ""
-		if pages >= 2 {
+		if masked && pages >= 2 {
+			nt = fmt.Sprintf("%s|masked|%v", desc, want)
+		} else if pages >= 2 {
 			nt = fmt.Sprintf("%s|%v", desc, want)
 			lib.Ev.Class("paging:multi-page")
 		}
@@ -441,7 +473,7 @@ func TestHostileRequests(t *testing.T) {
 		}
 		// a valid token to corrupt
 		valid := ""
-		if r := callPage(list, 1, ""); r.panic == nil && r.err == nil {
+		if r := callPage(list, 1, "", nil); r.panic == nil && r.err == nil {
 			valid = r.next
 		}
 		if rapid.Bool().Draw(t, "negativeSize") {
@@ -450,13 +482,13 @@ func TestHostileRequests(t *testing.T) {
 			if rapid.Bool().Draw(t, "withToken") {
 				tok = valid
 			}
-			r := callPage(list, size, tok)
+			r := callPage(list, size, tok, nil)
 			desc := fmt.Sprintf("%s n=%d page_size=%d token=%q", p.name, len(want), size, tok)
 			if r.panic != nil {
 				t.Fatalf("%s: panic: %v", desc, r.panic)
 			}
 			if r.err == nil {
-				t.Fatalf("%s: negative page size answered with a page of %d items (next=%q) instead of an error status", desc, len(r.keys), r.next)
+				t.Fatalf("%s: negative page size answered with a page of %d items (next=%q) instead of an error status", desc, len(r.items), r.next)
 			}
 			lib.Ev.Class("hostile:negative-page-size")
 			lib.Ev.Case(desc, func() any { return desc })
@@ -465,16 +497,17 @@ func TestHostileRequests(t *testing.T) {
 		tok, kind := drawHostileToken(t, p, valid, want)
 		size := rapid.SampledFrom([]int32{0, 1, 2, 3, 7}).Draw(t, "size")
 		desc := fmt.Sprintf("%s n=%d page_size=%d hostile token %q (%s)", p.name, len(want), size, tok, kind)
-		r := callPage(list, size, tok)
+		r := callPage(list, size, tok, nil)
 		if r.panic != nil {
 			t.Fatalf("%s: panic: %v", desc, r.panic)
 		}
 		if r.err == nil {
 			// a well formed page: follow it to the end
-			got, _, err := follow(list, size, tok, len(want), false)
+			gotItems, _, err := follow(list, size, tok, nil, len(want), false)
 			if err != nil {
 				t.Fatalf("%s: %v", desc, err)
 			}
+			got := keysOf(p, gotItems)
 			seen := map[string]bool{}
 			for _, k := range got {
 				if !inWant[k] {
